@@ -48,25 +48,17 @@ Proof.
   end.
   injection Hsp as ->.
   split_convs Hnm. f2u_ranges.
-  destruct (1 <? nb) eqn:C; [|lia].
   injection Hnm as <-.
   repeat match goal with E : f2u _ (Qcz _) = Val ?z |- _ => apply f2u_Qcz in E; destruct E as [-> ?] end.
   assert (X : forall (a b : Qc) (u v : Z), a = b -> u = v -> Z.max (Qcceil (rnd53 a)) u = Z.max (Qcceil (rnd53 b)) v)
     by (intros; subst; reflexivity).
-  match goal with
-  | |- (if ?r then upper_power_of_two ?d else ?d) = _ =>
-    assert (E : d = c);
-      [ unfold c; apply X;
-        [ unfold wrap32; change (2 ^ 32) with 4294967296 in *;
-          repeat match goal with
-                 | |- context [?a mod ?m] =>
-                   lazymatch a with context [_ mod _] => fail | _ => rewrite (Z.mod_small a m) by nia end
-                 end; try reflexivity; ring
-        | unfold w64, wrap32; change (2 ^ 64) with 18446744073709551616 in *; change (2 ^ 32) with 4294967296 in *;
-          repeat match goal with
-                 | |- context [?a mod ?m] =>
-                   lazymatch a with context [_ mod _] => fail | _ => rewrite (Z.mod_small a m) by nia end
-                 end; ring ]
-      | rewrite E; reflexivity ]
-  end.
+  Ltac unwrap_goal :=
+    unfold w64, wrap32; change (2 ^ 64) with 18446744073709551616 in *; change (2 ^ 32) with 4294967296 in *;
+    repeat match goal with
+           | |- context [?a mod ?m] =>
+             lazymatch a with context [_ mod _] => fail | _ => rewrite (Z.mod_small a m) by nia end
+           end.
+  repeat match goal with |- context [if ?cnd then _ else _] => destruct cnd eqn:? end; try lia;
+    try (apply (f_equal upper_power_of_two));
+    unfold c; (apply X; [ unwrap_goal; first [reflexivity | ring] | unwrap_goal; ring ]).
 Qed.
